@@ -100,6 +100,8 @@ def check(ctx, c):
             for i in c["preexisting"]:
                 files[f"LICENSES/{i}.txt"] = f"SENTINEL {i}\n"
         files["custom/LicenseRef-custom.txt"] = "custom licence text\n"
+        files["custom/LicenseRef-a.b.txt"] = "text of a.b\n"
+        files["custom/LicenseRef-a.txt"] = "text of a (another licence)\n"
         files["custom/one.txt"] = "single source file\n"
         files["emptydir/.keep"] = "x"
         tree.write_tree(root, files)
